@@ -18,7 +18,7 @@ PROPERTY = "C20"
 LEVEL = "exploration"
 PROFILE = {"driver": True, "data_simple": True, "one_marker_per_act": True, "taskables": (1, 3), "auxes": (0, 1), "slaves": (0, 0),
            "aux_policy": "clean", "frames": (1, 4), "depth": 2, "acts": (1, 5), "ticks": (4, 14),
-           "kinds": {"data": 8, "go": 9, "let": 0, "timeout": 1, "repeat": 1, "aux": 1, "auxif": 1, "bid": 0, "done": 0, "fiat": 0},
+           "kinds": {"data": 8, "go": 9, "let": 2, "timeout": 1, "repeat": 1, "aux": 1, "auxif": 1, "bid": 0, "done": 0, "fiat": 0},
            "needs": {"cmp": 1, "bool": 0, "elapsed": 0, "recurred": 2, "done": 0, "status": 0, "auxdone": 0, "updated": 7, "changed": 6}}
 
 
@@ -47,12 +47,30 @@ def classes(prog, r):
         out.append("taken-transition-reset")
     if any(e[0] == "act" and e[5] == "mark" for t, i, e in all_events(r["real"])):
         out.append("entry-reset")
+    goes = {}
+    for t, i, e in all_events(r["real"]):
+        if e[0] == "act" and e[5] == "go" and not e[6]:
+            goes.setdefault((t, e[4]), []).append(e)
+    refused = False
+    for t, i, e in all_events(r["real"]):
+        if e[0] == "need" and e[5] and (t, e[3]) in goes:
+            refused = True
+    if refused:
+        out.append("go-with-true-need-not-taken")
     return out
 
 
-CHECK = ProfileCheck(PROFILE, ["c20"], nontrivial, classes)
+def _guard_scenario():
+    from vp.flo import gen
+    return gen.guard_scenario()
+
+
+# every fourth shard draws the directed entry-guard scenarios (repeated attempts of transitions into guarded frames,
+# guarded by marker conditions): a refused transition must leave its marks alone
+CHECK = ProfileCheck(PROFILE, ["c20"], nontrivial, classes, directed=_guard_scenario, directed_share=4)
 RULE = ("Hypothesis-generated writer/observer programs with `is updated|changed [in frame ..] [by ..]` conditions; every recorded evaluation of a marker "
-        "condition is compared with an event-history model (writes, entry resets, taken-transition resets; tick granularity); + reference differential. "
+        "condition is compared with an event-history model (writes, entry resets, taken-transition resets; tick granularity), a transit reset must belong "
+        "to a taken transition (let guards and directed entry-guard scenarios produce refused ones); + reference differential. "
         "non-trivial = a share write happens in the same tick as a mark reset; distinct = distinct program AST")
 ASSUMPTIONS = ["when an entry reset and a taken-transition reset of the same mark fall in one tick, an update of that tick does not count (the statement leaves this combination open; adopted from the tree)",
                "writes are literal put/set/inc on the value field, so 'changed' compares the value field with the snapshot"]
